@@ -121,6 +121,7 @@ type Explorer struct {
 	G     *cfg.CFG
 	Hooks Hooks
 
+	inUnit    bool
 	MaxStates int
 	Visited   int
 	Undecided string // non-empty when the exploration was cut short
@@ -143,6 +144,7 @@ type atomMeta struct {
 	fields   map[string]bool // "Owner.field" / "var:name" designators that make the atom unstable
 	other    bool            // unstable for a reason a write summary cannot exclude (address-taken local, dereference)
 	scopes   [][2]token.Pos  // lexical scopes of the locals mentioned: the fact is dead outside any of them
+	expr     ast.Expr        // the expression the atom stands for (composite facts are unit-propagated through it)
 }
 
 type xnode struct {
@@ -943,6 +945,12 @@ func (x *Explorer) Eval(e ast.Expr, st *State) tri {
 		return fromBool(constant.BoolVal(tv.Value))
 	}
 	switch b := e.(type) {
+	case *ast.Ident:
+		// a bool local that only ever holds one immutable expression *is* that expression: a test of the
+		// local and a test of the expression are the same atom
+		if d := x.boolDef(b); d != nil {
+			return x.Eval(d, st)
+		}
 	case *ast.UnaryExpr:
 		if b.Op == token.NOT {
 			return neg(x.Eval(b.X, st))
@@ -984,12 +992,53 @@ func (x *Explorer) Eval(e ast.Expr, st *State) tri {
 	}
 	v, has := st.Facts[k]
 	if !has {
-		return unknown
+		return x.unitPropagate(k, negated, st)
 	}
 	if negated {
 		v = !v
 	}
 	return fromBool(v)
+}
+
+// unitPropagate decides the atom k from a composite fact one side of which it is: (A && B) known false
+// and A known true gives B false; (A || B) known true and A known false gives B true.
+func (x *Explorer) unitPropagate(k string, negated bool, st *State) tri {
+	if x.inUnit {
+		return unknown
+	}
+	x.inUnit = true
+	defer func() { x.inUnit = false }()
+	for fk, fv := range st.Facts {
+		m := x.atoms[fk]
+		if m == nil || m.expr == nil {
+			continue
+		}
+		b, ok := Unparen(m.expr).(*ast.BinaryExpr)
+		if !ok || !((b.Op == token.LAND && !fv) || (b.Op == token.LOR && fv)) {
+			continue
+		}
+		for _, pr := range [][2]ast.Expr{{b.X, b.Y}, {b.Y, b.X}} {
+			sk, sneg, ok := x.atom(pr[0])
+			if !ok || sk != k {
+				continue
+			}
+			o := x.Eval(pr[1], st)
+			var side tri // value of pr[0]
+			switch {
+			case b.Op == token.LAND && o == yes:
+				side = no
+			case b.Op == token.LOR && o == no:
+				side = yes
+			default:
+				continue
+			}
+			if sneg != negated {
+				side = neg(side)
+			}
+			return side
+		}
+	}
+	return unknown
 }
 
 // Assume records that e evaluates to val; it returns false when that contradicts st.
@@ -1002,6 +1051,10 @@ func (x *Explorer) Assume(e ast.Expr, val bool, st *State) bool {
 	}
 	e = Unparen(e)
 	switch b := e.(type) {
+	case *ast.Ident:
+		if d := x.boolDef(b); d != nil {
+			return x.Assume(d, val, st)
+		}
 	case *ast.UnaryExpr:
 		if b.Op == token.NOT {
 			return x.Assume(b.X, !val, st)
@@ -1047,7 +1100,7 @@ func (x *Explorer) meta(k string, e ast.Expr) {
 	if _, ok := x.atoms[k]; ok {
 		return
 	}
-	m := &atomMeta{mentions: map[string]bool{}, stable: true, fields: map[string]bool{}}
+	m := &atomMeta{mentions: map[string]bool{}, stable: true, fields: map[string]bool{}, expr: e}
 	info := x.Fn.Info()
 	var walk func(e ast.Expr)
 	walk = func(e ast.Expr) {
@@ -1333,6 +1386,29 @@ func (x *Explorer) inlineDef(o *types.Var) ast.Expr {
 	}
 	x.inl[o] = res
 	return res
+}
+
+// boolDef: the single immutable, non-constant expression a bool local stands for (nil otherwise).
+func (x *Explorer) boolDef(id *ast.Ident) ast.Expr {
+	v, ok := ObjOf(x.Fn.Info(), id).(*types.Var)
+	if !ok || v.IsField() || v.Pkg() == nil || v.Parent() == v.Pkg().Scope() {
+		return nil
+	}
+	if bt, ok := v.Type().Underlying().(*types.Basic); !ok || bt.Info()&types.IsBoolean == 0 {
+		return nil
+	}
+	d := x.inlineDef(v)
+	if d == nil {
+		return nil
+	}
+	if _, isId := Unparen(d).(*ast.Ident); isId {
+		return d
+	}
+	switch Unparen(d).(type) {
+	case *ast.BinaryExpr, *ast.UnaryExpr, *ast.CallExpr, *ast.SelectorExpr:
+		return d
+	}
+	return nil
 }
 
 // inlDefs: the definitions inlineDef considers (those in the explored function itself; for a local of
